@@ -109,8 +109,24 @@ func runC01(r *hk.Run) {
 		for i := 0; i < pr.n; i++ {
 			runReqCell(r, o, genScenario(prng, pr.p, !r.Quick()))
 		}
+		// tiny bodies of unknown length on methods that usually have none (the one-byte probe of
+		// transferWriter), incl. readers that deliver their last byte together with io.EOF
+		for _, m := range []string{"GET", "DELETE", "PROPFIND", "SEARCH", "POST", "HEAD"} {
+			for _, kind := range []string{"reader", "eofreader", "getbody", "bytes"} {
+				for _, n := range []int{0, 1, 2} {
+					l := "probe"
+					sc := scenario{Proto: pr.p, Method: m, BodyKind: kind, BodySeed: prng.Intn(256), BodyLen: n,
+						URL: urlSpec{Class: "clean", Segs: [][]tok{{{Lit: l, Dec: l}}}, RPath: map[string]string{}, CPath: map[string]string{}}}
+					r.Count("req.probe-cells")
+					runReqCell(r, o, sc)
+				}
+			}
+		}
 		o.Close()
 	}
+
+	// (d) connection-level events: the retry must carry the body
+	runEventCells(r, rng.Fork())
 }
 
 func nonTrivialStr(s string) bool {
